@@ -39,6 +39,8 @@ def run(ctx):
     ctx.do(rule_navigation)
     ctx.do(rule_delegation)
     ctx.do(rule_environment_attaches_every_source)
+    ctx.do(rule_every_related_id_is_asked)
+    ctx.do(rule_versions_compared_as_instants)
     # the union is taken over what the MEMBERS answer: each member applies the filters it is handed to every answer (C12) and
     # answers get() with its newest version (C11)
     from . import C11 as _C11, C12 as _C12
@@ -647,3 +649,56 @@ def rule_environment_attaches_every_source(ctx):
                   "whether the %s given to Environment() is attached depends on another argument (%s): given together with it, "
                   "what only this source holds is missing from every answer of the environment" % (own, "; ".join(foreign)), file=rel,
                   line=c.lineno, function=fi.qualname, expected="if %s: self.source.add_data_source(...)" % own, found=foreign)
+
+
+def rule_every_related_id_is_asked(ctx, R="C18.navigation"):
+    """related_to() asks the source about EVERY id the relationships name; which of them are returned is decided by the
+    filters, evaluated by the query.  A shortcut in front of the query (skip ids whose type prefix is not among the values of
+    the caller's type filters) re-implements the filter semantics -- and gets `!=` and `in` wrong: the wanted objects are
+    dropped.  In DataSource.related_to the per-id query is unconditional inside its loop."""
+    run = ctx.run
+    prog = ctx.prog
+    fi = prog.cls(DS + "::DataSource").methods.get("related_to")
+    if fi is None:
+        raise AnalysisError("anchor missing: DataSource.related_to")
+    loops = [lp for lp in body_walk(fi.node) if isinstance(lp, ast.For) and any(
+        isinstance(c, ast.Call) and isinstance(c.func, ast.Attribute) and c.func.attr == "query" for c in ast.walk(lp))]
+    if len(loops) != 1:
+        raise AnalysisError("DataSource.related_to: the per-id query loop was not found")
+    lp = loops[0]
+    q = [c for c in ast.walk(lp) if isinstance(c, ast.Call) and isinstance(c.func, ast.Attribute) and c.func.attr == "query"][0]
+    skips = [x for st in lp.body for x in ast.walk(st) if isinstance(x, (ast.Continue, ast.Break))]
+    cond = guard_chain(q, stop=lp)
+    run.check(not skips and not cond, R, key(fi.module.relpath, fi.qualname, "every-related-id-is-asked"),
+              "an id named by the relationships is not always asked for: a test in front of the per-id query decides in place of "
+              "the filters (and knows less than they do: the operator, the other filters), so related objects are dropped",
+              file=fi.module.relpath, line=(skips[0].lineno if skips else q.lineno), function=fi.qualname,
+              expected="for i in ids: results.extend(self.query([...filters..., Filter('id', '=', i)]))",
+              found=[short(x.parent if hasattr(x, "parent") else x, 80) for x in skips] + [norm(t) for t, _p, _ in cond])
+
+
+def rule_versions_compared_as_instants(ctx, R="C18.newest"):
+    """'Newest' is an order on INSTANTS.  Timestamp text is not ordered like time: '...10.1234Z' < '...10.123Z' as text (the
+    'Z' sorts after the digits), and text of different precisions compares by length accidents.  In CompositeDataSource.get
+    the values compared to pick the newest answer are what the objects hold -- not the output of a formatter / str()."""
+    run = ctx.run
+    prog = ctx.prog
+    fi = prog.cls(DS + "::CompositeDataSource").methods.get("get")
+    if fi is None:
+        raise AnalysisError("anchor missing: CompositeDataSource.get")
+    fl = flow_of(fi)
+    cmps = [x for x in body_walk(fi.node) if isinstance(x, ast.Compare) and any(isinstance(o, (ast.Gt, ast.Lt, ast.GtE, ast.LtE)) for o in x.ops)]
+    if not cmps:
+        raise AnalysisError("CompositeDataSource.get: no order comparison found")
+    textual = ("format_datetime", "str", "repr", "isoformat", "strftime", "format", "serialize", "dumps")
+    bad = []
+    for c in cmps:
+        for e in [c.left] + list(c.comparators):
+            used = sorted(fl.prov(e).calls & set(textual))
+            if used:
+                bad.append((c, used))
+    run.check(not bad, R, key(fi.module.relpath, fi.qualname, "newest-by-instant"),
+              "the versions of the members' answers are ordered as TEXT (%s): text order is not time order across precisions "
+              "('.1234Z' sorts before '.123Z'), so an older version is returned as the newest" % (", ".join(bad[0][1]) if bad else ""),
+              file=fi.module.relpath, line=bad[0][0].lineno if bad else fi.node.lineno, function=fi.qualname,
+              expected="compare the datetime values the objects hold", found=[short(c, 80) for c, _ in bad])
